@@ -4,6 +4,7 @@ from hypothesis import strategies as st
 from vf import gens
 from vf.runner import hyp_run, run_cases, guard, fail, exc_failure
 
+THOROUGH_SCALE = 8      # multiplies every generated-case budget of the thorough tier
 RULE = ("cell (7 families incl. triclinic, constructed positive volume) x rotation (uniform quaternion, identity, "
         "axis-aligned, small angle) x symmetric strain of magnitude 0 / 1e-4 / 1e-2 -> UBI = inv(U.(I+eps).B0); "
         "oracle = QR decomposition (U', B') of inv(UBI) and Gram matrices computed in the harness, B0 = upper "
